@@ -98,8 +98,18 @@ class C01(rowgen.RowGenProp):
         end = t + rng.uniform(2, 6) * row_t
         if rng.random() < 0.5:
             events.append(scen.call(end - rng.uniform(2.5, 3.5) * row_t, scen.THATS_ALL))
+        on_join = []
+        if rng.random() < 0.3:
+            # somebody takes a rope or two and lets go again before the touch: the bells are Wheatley's once more
+            on_join = scen.humans_on_join([])
+            for _ in range(rng.randint(1, 3)):
+                b = rng.randint(1, N)
+                ta = t0 - rng.uniform(0.5, 0.9)
+                events.append([ta, "msg", {"m": "assign", "bell": b, "user": 11}])
+                events.append([ta + rng.uniform(0.05, 0.3), "msg",
+                               rng.choice([{"m": "assign", "bell": b, "user": 0}, {"m": "user_left", "id": 11}])])
         events.sort(key=lambda e: e[0])
-        sc = {"start": 1000.0, "end": end, "tower_size": N, "events": events,
+        sc = {"start": 1000.0, "end": end, "tower_size": N, "events": events, "on_join": on_join,
               "bot": scen.bot_cfg(spec, up_down_in=udi, stop_at_rounds=rng.random() < 0.3),
               "rhythm": scen.stub_rhythm(w)}
         return {"k": "world", "scenario": sc}
